@@ -28,7 +28,7 @@ CONSTANTS
   Targets = {"A"}
   AutoVals = {TRUE, FALSE}
   SubOneshot = {FALSE}
-  Senders = {"B"}
+  Senders = {"A", "B"}
   QuitCodes = {1}
   ForeignOps = {}
   MaxRefs = 1
